@@ -60,6 +60,16 @@ def gen(rng, tier):
         qbuf = [n for n, v in nodes.items() if v[1] == [f"{a}.q"]]
         if qbuf:
             nodes[f"{b}.d"][1] = [qbuf[0]]
+    if rng.random() < 0.3:
+        # ordinary nets named like the io that the flop pins turn into: <stem>_<pin> (sys_clk, div2_q, n_rst ...)
+        plain = [n for n in nodes if "." not in n and not n.endswith("_in")]
+        mp = {}
+        for n in rng.sample(plain, min(len(plain), rng.randint(1, 2))):
+            new = f"{rng.choice(('sys', 'n', 'div2', 'x'))}_{rng.choice(pins_in + ['q'])}"
+            if new not in nodes and new not in mp.values() and new.split('_')[0] not in insts:
+                mp[n] = new
+        net = G.rename(net, mp)
+        nodes = net["nodes"]
     iv = rng.choice((None, None, "0", "1", "dict"))
     if iv == "dict":
         iv = {i: rng.choice(("0", "1")) for i in insts if rng.random() < 0.7}
